@@ -1277,6 +1277,17 @@ func (bc *boundsCtx) condFacts(cond ssa.Value, holds bool) []lin {
 		cond, holds = u.X, !holds
 	}
 	if call, isCall := cond.(*ssa.Call); isCall && holds {
+		// strings.HasPrefix/HasSuffix/Contains(x, "const") ⇒ len(x) ≥ len("const")
+		if f := call.Call.StaticCallee(); f != nil && len(call.Call.Args) == 2 {
+			switch calleeName(f) {
+			case "strings.HasPrefix", "strings.HasSuffix", "strings.Contains", "bytes.HasPrefix", "bytes.HasSuffix", "bytes.Contains":
+				if k, ok := call.Call.Args[1].(*ssa.Const); ok && k.Value != nil && k.Value.Kind() == constant.String {
+					n := int64(len(constant.StringVal(k.Value)))
+					return []lin{linConst(n).add(bc.lenLin(call.Call.Args[0], 0), -1)}
+				}
+				return nil
+			}
+		}
 		return bc.boolHelperFacts(call)
 	}
 	b, ok := cond.(*ssa.BinOp)
@@ -1382,6 +1393,7 @@ func (bc *boundsCtx) extraFacts(g lin, facts []lin, at ssa.Instruction) []lin {
 				pf := bc.phiFacts(a)
 				pf = append(pf, bc.strideFacts(a, at)...)
 				pf = append(pf, bc.resultIntFacts(a, at)...)
+				pf = append(pf, bc.indexFacts(a, at)...)
 				out = append(out, pf...)
 				for _, f := range pf {
 					visit(f)
@@ -2266,6 +2278,63 @@ func (bc *boundsCtx) seedCallee(cb *boundsCtx, g *ssa.Function, call *ssa.Call) 
 			cb.assumed = append(cb.assumed, linAtom(atom{kind: 'v', v: p}).neg())
 		}
 	}
+}
+
+// indexFacts: i := strings.Index(x, sep) (IndexByte, IndexAny, LastIndex …): -1 ≤ i ≤ len(x)-1, and
+// i ≥ 0 where a dominating strings.Contains(x, sep) / ContainsAny / ContainsRune of the same
+// operands holds (or i itself was tested).
+func (bc *boundsCtx) indexFacts(a atom, at ssa.Instruction) []lin {
+	call, ok := a.v.(*ssa.Call)
+	if !ok || a.kind != 'v' || at == nil {
+		return nil
+	}
+	f := call.Call.StaticCallee()
+	if f == nil || len(call.Call.Args) != 2 {
+		return nil
+	}
+	var contains string
+	switch calleeName(f) {
+	case "strings.Index", "strings.LastIndex":
+		contains = "strings.Contains"
+	case "strings.IndexByte", "strings.IndexRune", "strings.LastIndexByte":
+		contains = "strings.ContainsRune"
+	case "strings.IndexAny", "strings.LastIndexAny":
+		contains = "strings.ContainsAny"
+	default:
+		return nil
+	}
+	x := call.Call.Args[0]
+	if contains == "strings.Contains" {
+		// Index(x, "") is 0 even for an empty x: the upper bound below needs a non-empty separator
+		k, isK := call.Call.Args[1].(*ssa.Const)
+		if !isK || k.Value == nil || k.Value.Kind() != constant.String || constant.StringVal(k.Value) == "" {
+			return []lin{linConst(-1).add(linAtom(a), -1)}
+		}
+	}
+	out := []lin{linConst(-1).add(linAtom(a), -1), linAtom(a).add(bc.lenLin(x, 0), -1).plus(1)} // -1 - i ≤ 0 ; i - len + 1 ≤ 0 … for a hit; for a miss i = -1 ≤ len - 1 as well
+	sameConst := func(u, v ssa.Value) bool {
+		ku, ok1 := u.(*ssa.Const)
+		kv, ok2 := v.(*ssa.Const)
+		return ok1 && ok2 && ku.Value != nil && kv.Value != nil && ku.Value.ExactString() == kv.Value.ExactString()
+	}
+	for _, dc := range domConds(at.Block()) {
+		cc, ok := dc.cond.(*ssa.Call)
+		if !ok || !dc.holds {
+			continue
+		}
+		g := cc.Call.StaticCallee()
+		if g == nil || len(cc.Call.Args) != 2 {
+			continue
+		}
+		n := calleeName(g)
+		if n != contains && !(contains == "strings.ContainsRune" && n == "strings.Contains") {
+			continue
+		}
+		if bc.canon(cc.Call.Args[0]) == bc.canon(x) && (sameConst(cc.Call.Args[1], call.Call.Args[1]) || bc.canon(cc.Call.Args[1]) == bc.canon(call.Call.Args[1])) {
+			out = append(out, linAtom(a).neg())
+		}
+	}
+	return out
 }
 
 // boolHelperFacts: `if helper(args)` taken on its true edge, for a module function with a single
